@@ -109,8 +109,10 @@ def c01_unescape_instability(case, observed, expected):
         return False
     if a[0] != b[0] or a[1] != b[1]:
         return False
-    blob = _flat(a[2]) + _flat(a[3])       # the characters themselves (a repr would show CR as backslash-r)
-    return ("\\" in blob or "%" in blob) and a[1] in ("vText", "vCalAddress", "vUri", "vCategory", "vInline", "vDDDTypes",
+    # the characters of the parameters and of the DECODED value (the encoded text has a backslash for every comma;
+    # a repr would show CR as backslash-r)
+    blob = _flat(a[2]) + (_flat(a[4]) if len(a) == 5 else _flat(a[3]))
+    return "\\" in blob and a[1] in ("vText", "vCalAddress", "vUri", "vCategory", "vInline", "vDDDTypes",
                                                         "vDDDLists", "vRecur", "vInt", "vDuration", "vPeriod", "vGeo",
                                                         "vUTCOffset", "vBoolean", "vFloat", "vBinary", "vTime", "vDatetime", "vDate")
 
@@ -132,6 +134,25 @@ def c01_suite_split_backslash(case, observed, expected):
     suppressed only when the observed split is exactly the pinned mirror's"""
     line = (case.get("event") or {}).get("line", "")
     return bool(case.get("impl_equal")) and isinstance(line, str) and ("\\" in line or "%" in line)
+
+
+def c01_crlf_in_text(case, observed, expected):
+    """the only difference between the two parses is CR LF inside a TEXT value turned into LF (escape_char writes the
+    pair as one \\n; the intended newline normalisation of C07's Norms)"""
+    d = (case.get("diff") or {})
+    a, b = d.get("a"), d.get("b")
+    if d.get("what") != "prop" or not (isinstance(a, list) and isinstance(b, list) and len(a) == 5 and len(b) == 5):
+        return False
+    if a[:3] != b[:3]:
+        return False
+
+    def norm(x):
+        if isinstance(x, str):
+            return x.replace("\r\n", "\n")
+        if isinstance(x, list):
+            return [norm(i) for i in x]
+        return x
+    return a[4] != b[4] and norm(a[4]) == b[4]
 
 
 # ---------------------------------------------------------------- C02
